@@ -7,7 +7,7 @@
    - the combinatorial notions the property speaks about (directed edges, border, Euler characteristic,
      connectedness, vertex umbrellas) together with executable boolean checkers;
    - the hand model of SurfaceMesh.connectivity.vertex_to_faces that dual_mesh consumes. *)
-From Coq Require Import ZArith List Bool.
+From Coq Require Import ZArith List Bool Permutation.
 Import ListNotations.
 Require Import MV.Lib.Base.
 Open Scope Z_scope.
@@ -120,6 +120,9 @@ Definition border (F : list (list Z)) : list dedge :=
 Definition cyc_pairs (l : list Z) : list dedge := fedges l.
 Definition border_is_cycle (F : list (list Z)) (c : list Z) : Prop :=
   NoDup c /\ forall e, is_border F e <-> In e (cyc_pairs c).
+(* several border loops: the cycles are pairwise disjoint and together carry exactly the border edges *)
+Definition border_is_cycles (F : list (list Z)) (cs : list (list Z)) : Prop :=
+  NoDup (concat cs) /\ forall e, is_border F e <-> exists c, In c cs /\ In e (cyc_pairs c).
 (* undirected edges: one representative per unordered pair *)
 Definition norm_edge (e : dedge) : dedge := if fst e <=? snd e then e else swap e.
 Fixpoint dnodup (l : list dedge) : list dedge :=
@@ -176,32 +179,37 @@ Definition border_cycle (F : list (list Z)) : option (list Z) :=
   | [] => Some []
   | e :: _ => walk_border (border F) (length (border F)) e e [fst e]
   end.
-(* number of border loops: repeatedly remove the cycle through the first remaining border edge *)
-Fixpoint remove_cycle (B : list dedge) (fuel : nat) (start cur : dedge) (B' : list dedge) : option (list dedge) :=
+(* all border loops: repeatedly walk the cycle through the first remaining border edge (untrusted), and a
+   checker for the result that is sound for border_is_cycles *)
+Fixpoint extract_cycles (B : list dedge) (fuel : nat) : option (list (list Z)) :=
   match fuel with
-  | O => None
-  | S k =>
-      match find (fun e => fst e =? snd cur) B with
-      | None => None
-      | Some e => if dedge_eqb e start then Some B'
-                  else remove_cycle B k start e (filter (fun x => negb (dedge_eqb x e)) B')
-      end
-  end.
-Fixpoint count_loops (fuel : nat) (B : list dedge) : option Z :=
-  match fuel with
-  | O => None
+  | O => match B with [] => Some [] | _ => None end
   | S k =>
       match B with
-      | [] => Some 0
+      | [] => Some []
       | e :: _ =>
-          match remove_cycle B (length B) e e (filter (fun x => negb (dedge_eqb x e)) B) with
+          match walk_border B (length B) e e [fst e] with
           | None => None
-          | Some B' => match count_loops k B' with None => None | Some n => Some (n + 1) end
+          | Some c =>
+              let B' := filter (fun x => negb (dmem x (cyc_pairs c))) B in
+              if (length B' <? length B)%nat
+              then match extract_cycles B' k with Some cs => Some (c :: cs) | None => None end
+              else None
           end
       end
   end.
+Definition border_cycles (F : list (list Z)) : option (list (list Z)) :=
+  extract_cycles (border F) (length (border F)).
+Definition borders_chk (F : list (list Z)) (cs : list (list Z)) : bool :=
+  let D := dedges F in let P := flat_map cyc_pairs cs in
+  nodupb Z.eqb (concat cs)
+  && forallb (fun e => dmem e D && negb (dmem (swap e) D)) P
+  && forallb (fun e => dmem (swap e) D || dmem e P) D.
 Definition border_loops (F : list (list Z)) : option Z :=
-  count_loops (S (length (border F))) (border F).
+  match border_cycles F with
+  | Some cs => if borders_chk F cs then Some (zlen cs) else None
+  | None => None
+  end.
 
 (* connectedness by saturation from vertex 0 *)
 Fixpoint reach (D : list dedge) (fuel : nat) (seen : list Z) : list Z :=
@@ -219,8 +227,10 @@ Fixpoint reach (D : list dedge) (fuel : nat) (seen : list Z) : list Z :=
 Definition connectedb (V : Z) (F : list (list Z)) : bool :=
   (V <=? 0) || (let r := reach (dedges F) (Z.to_nat V) [0] in forallb (fun v => zmem v r) (zrange V)).
 
-(* vertex umbrella: the corners at v, as (next, prev) pairs, must chain into ONE fan (cycle or path) *)
-Fixpoint corners_at (v : Z) (f : list dedge) : list (Z * Z) :=
+(* vertex umbrellas.  links F v lists, for every corner of a face at v, the pair (next vertex, previous
+   vertex).  The corners form ONE fan when they can be ordered so that each corner's `previous` is the
+   following corner's `next` (the two corners share the edge from v to that vertex). *)
+Fixpoint corners_at (v : Z) (f : list (Z * Z)) : list (Z * Z) :=
   (* f = fedges of a face, cyclically: for consecutive (p,v),(v,n) record (n,p) *)
   match f with
   | (p, x) :: (((y, n) :: _) as t) => (if (x =? v) && (y =? v) then [(n, p)] else []) ++ corners_at v t
@@ -232,27 +242,42 @@ Definition face_corners_at (v : Z) (f : list Z) : list (Z * Z) :=
   | e :: t => corners_at v ((e :: t) ++ [e])
   end.
 Definition links (F : list (list Z)) (v : Z) : list (Z * Z) := flat_map (face_corners_at v) F.
-(* walk  (n,p) -> the link whose next is p *)
-Fixpoint fan_len (L : list (Z * Z)) (fuel : nat) (start cur : Z * Z) : Z :=
-  match fuel with
-  | O => 0
-  | S k =>
-      match find (fun l => fst l =? snd cur) L with
-      | None => 1
-      | Some l => if dedge_eqb l start then 1 else 1 + fan_len L k start l
-      end
+Fixpoint chained (r : list (Z * Z)) : Prop :=
+  match r with
+  | a :: ((b :: _) as t) => snd a = fst b /\ chained t
+  | _ => True
   end.
-Definition umbrella_ok (F : list (list Z)) (v : Z) : bool :=
+Definition one_fan (F : list (list Z)) (v : Z) : Prop :=
+  exists r, Permutation r (links F v) /\ chained r.
+Definition vertex_manifold (V : Z) (F : list (list Z)) : Prop := forall v, 0 <= v < V -> one_fan F v.
+
+Fixpoint chainedb (r : list (Z * Z)) : bool :=
+  match r with
+  | a :: ((b :: _) as t) => (snd a =? fst b) && chainedb t
+  | _ => true
+  end.
+(* an ordering of the links, found by walking (untrusted), then checked *)
+Fixpoint order_links (L : list (Z * Z)) (fuel : nat) (cur : Z * Z) : list (Z * Z) :=
+  match fuel with
+  | O => [cur]
+  | S k => match find (fun l => fst l =? snd cur) L with
+           | Some l => cur :: order_links L k l
+           | None => [cur]
+           end
+  end.
+Definition fan_order (F : list (list Z)) (v : Z) : list (Z * Z) :=
   let L := links F v in
   match L with
-  | [] => true
+  | [] => []
   | l0 :: _ =>
-      (* start at the link whose `next` is nobody's `prev` (border fan) if there is one *)
-      let start := match find (fun l => negb (existsb (fun m => snd m =? fst l) L)) L with
-                   | Some l => l | None => l0 end in
-      fan_len L (length L) start start =? zlen L
+      let start := match find (fun l => negb (existsb (fun m => snd m =? fst l) L)) L with Some l => l | None => l0 end in
+      firstn (length L) (order_links L (length L) start)
   end.
-Definition vertex_manifoldb (V : Z) (F : list (list Z)) : bool := forallb (umbrella_ok F) (zrange V).
+Definition same_setb (a b : list (Z * Z)) : bool :=
+  nodupb dedge_eqb a && nodupb dedge_eqb b && forallb (fun x => dmem x b) a && forallb (fun x => dmem x a) b.
+Definition one_fanb (F : list (list Z)) (v : Z) : bool :=
+  let r := fan_order F v in same_setb r (links F v) && chainedb r.
+Definition vertex_manifoldb (V : Z) (F : list (list Z)) : bool := forallb (one_fanb F) (zrange V).
 
 Fixpoint face_eqb (a b : list Z) : bool :=
   match a, b with
